@@ -12,6 +12,8 @@ pub mod c04;
 pub mod c05;
 pub mod c06;
 pub mod c07;
+pub mod c08;
+pub mod c09;
 pub mod c10;
 pub mod c11;
 
@@ -60,6 +62,8 @@ pub fn run_prop<C: RandomizedCiphersuite, L: Lab<C>>(prop: &str, lab: &mut L, p:
         "C05" => c05::run::<C, L>(lab, p),
         "C06" => c06::run::<C, L>(lab, p),
         "C07" => c07::run::<C, L>(lab, p),
+        "C08" => c08::run::<C, L>(lab, p),
+        "C09" => c09::run::<C, L>(lab, p),
         "C10" => c10::run::<C, L>(lab, p),
         "C11" => c11::run::<C, L>(lab, p),
         _ => panic!("unknown property {prop}"),
@@ -74,6 +78,8 @@ pub fn cases(prop: &str, thorough: bool, seed: u64) -> Vec<Params> {
         "C05" => c05::cases(thorough, seed),
         "C06" => c06::cases(thorough, seed),
         "C07" => c07::cases(thorough, seed),
+        "C08" => c08::cases(thorough, seed),
+        "C09" => c09::cases(thorough, seed),
         "C10" => c10::cases(thorough, seed),
         "C11" => c11::cases(thorough, seed),
         _ => panic!("unknown property {prop}"),
